@@ -324,7 +324,7 @@ impl Ctx {
 
     fn skip(&self, name: &str) -> bool {
         if let Some((c, _)) = &self.replay {
-            if c != name {
+            if !replay_matches(c, name) {
                 return true;
             }
         }
@@ -627,6 +627,12 @@ impl Ctx {
         }
         0
     }
+}
+
+/// does the sweep recorded in a replay file designate the sweep `name`?  (violations
+/// recorded outside a sweep only know a prefix of the sweep name)
+pub fn replay_matches(recorded: &str, name: &str) -> bool {
+    recorded == name || name.starts_with(&format!("{recorded}/"))
 }
 
 /// Mixed-radix decode: i -> digits with the given radices (first digit fastest).
